@@ -25,7 +25,8 @@ FORMS = {
     'mod-nonident-comp': '<Foo v-model={{[v1, ["a-b"]]}}/>', 'mod-suffix-hyphen': '<div v-foo_a-b={{v1}}/>', 'mod-suffix-digit': '<div v-foo_1={{v1}}/>', 'mod-suffix-model': '<input v-model_a-b={{v1}}/>',
     'mod-sym-el': '<div v-foo={{[v1, ["{M}"]]}}/>', 'mod-sym-model-el': '<input v-model={{[v1, ["{M}"]]}}/>', 'mod-sym-comp': '<Foo v-model={{[v1, ["{M}"]]}}/>', 'mod-sym-show': '<div v-show={{[v1, "a", ["{M}"]]}}/>',
     'spread-child': '<div>{{...v1}}</div>', 'empty-child': '<div>{{}}</div>', 'cmt-child': '<Foo>{{/* c */}}</Foo>', 'str-entities': '<div title="a&quot;b">x &amp; y</div>',
-    'attr-ns': '<div xlink:href="u" a:b={{v1}}/>', 'key-hyphen': '<div data-x="1" aria-label={{v1}}/>', 'text-only-ws': '<div>   </div>',
+    'attr-str-sym': '<div title="{M}"/>', 'attr-str-sym-comp': '<Foo title="{M}" id="k"/>', 'html-str-sym': '<div v-html="{M}"/>', 'text-str-sym': '<p v-text="{M}"/>',
+    'dir-str-sym': '<div v-foo="{M}"/>', 'attr-ns': '<div xlink:href="u" a:b={{v1}}/>', 'key-hyphen': '<div data-x="1" aria-label={{v1}}/>', 'text-only-ws': '<div>   </div>',
     'vslots-el': '<Foo v-slots=<b/>/>', 'arg-nonstr': '<div v-foo:arg={{v1}}/>', 'ns-dir-suffix': '<div v-foo:a-b_c-d={{v1}}/>',
 }
 
@@ -34,7 +35,7 @@ def make_skeleton(spec):
     leaves = []
     f = FORMS[spec['form']]
     if '{M}' in f:
-        leaves.append(Leaf('M', 'jsstr', spec.get('n', 2)))
+        leaves.append(Leaf('M', 'str' if 'str-sym' in spec['form'] else 'jsstr', spec.get('n', 2)))
     head = ''
     if spec.get('pragma_comment'):
         head = '/* %s */\n' % spec['pragma_comment']
@@ -62,7 +63,35 @@ def ident_name_ok(ctx, s):
     return b_and(*[_id_char(ctx, c, i == 0) for i, c in enumerate(cs)])
 
 
-def scan(ctx, program):
+def jsx_string_spans(pre):
+    """spans of the string literals that are JSX attribute values in the input (their `raw` is JSX text, not JS text)"""
+    out = set()
+
+    def f(v, p):
+        if isinstance(v, Adt) and v.ty == 'JSXAttrValue' and v.variant == 'Lit' and v.fields[0].variant == 'Str':
+            sp = v.fields[0].fields[0].get('span')
+            out.add((sp.fields[0], sp.fields[1]))
+    astio.walk(pre, f)
+    return out
+
+
+def raw_is_js_text(ctx, s):
+    """a JSX attribute string copied verbatim is JS string text only if it needs no escaping"""
+    r = s.get('raw')
+    if not is_some(r):
+        return True
+    raw = deref(r.fields[0])
+    cs = raw.cs
+    if len(cs) < 2:
+        return False
+    q = cs[0]
+    rs = [v_eq(cs[-1], q)]
+    for c in cs[1:-1]:
+        rs.append(b_not(b_or(v_eq(c, 92), v_eq(c, 10), v_eq(c, 13), v_eq(c, 0x2028), v_eq(c, 0x2029), v_eq(c, q))))
+    return b_and(*rs)
+
+
+def scan(ctx, program, jsx_spans=()):
     """-> (has_jsx, [conditions that must hold for the tree to print as a program])"""
     jsx = []
     conds = []
@@ -76,6 +105,10 @@ def scan(ctx, program):
                 if isinstance(s, SStr):
                     if len(s.cs) == 0:
                         conds.append(('identifier is not empty', False, {'ident': ''}))
+            if v.ty == 'Str' and v.names and 'raw' in v.names:
+                sp = v.get('span')
+                if (sp.fields[0], sp.fields[1]) in jsx_spans and (sp.fields[0], sp.fields[1]) != (0, 0):
+                    conds.append(('a JSX attribute string is not copied verbatim as JS string text unless it needs no escaping', raw_is_js_text(ctx, v), {'key': v.get('value')}))
             if v.ty == 'PropName' and v.variant == 'Ident':
                 s = v.fields[0].get('sym')
                 conds.append(('an identifier-keyed member has an IdentifierName key', ident_name_ok(ctx, s), {'key': s}))
@@ -96,7 +129,7 @@ def oracle(env):
         jsx, _ = scan(ctx, env.post)
         return [Obligation('without a reported error the output contains no JSX and re-parses as a plain module', (not jsx) and env.extra['reparse_ok'] is True,
                            {'jsx_left': jsx[:3], 'reparse_ok': env.extra['reparse_ok'], 'code': (env.extra.get('code') or '')[-300:]})]
-    jsx, conds = scan(ctx, env.post)
+    jsx, conds = scan(ctx, env.post, jsx_string_spans(env.pre))
     obs = [Obligation('without a reported error the output contains no JSX and re-parses as a plain module', b_and(not jsx, *[c[1] for c in conds]),
                       {'jsx_left': jsx[:3], 'failing': [c[0] for c in conds if c[1] is False], 'keys': [c[2].get('key') for c in conds if 'key' in c[2]][:4]})]
     return obs
@@ -106,7 +139,7 @@ def jobs(tier):
     out = []
     for f in FORMS:
         if '{M}' in FORMS[f]:
-            for n in ([0, 1, 2, 3] if tier == 'quick' else [0, 1, 2, 3, 4, 5]):
+            for n in ([0, 1, 2, 3] if tier == 'quick' else [0, 1, 2, 3, 4, 5]) if 'str-sym' not in f else ([1, 2] if tier == 'quick' else [1, 2, 3]):
                 out.append({'form': f, 'n': n})
         else:
             out.append({'form': f})
@@ -127,6 +160,8 @@ def classify(v, detail):
               'member-tag': 'member-tag-is-left-as-jsx-member-expression', 'member-this': 'member-tag-is-left-as-jsx-member-expression', 'member-deep': 'member-tag-is-left-as-jsx-member-expression'}
     if form in groups:
         return groups[form]
+    if 'str-sym' in form:
+        return 'jsx-attribute-string-copied-verbatim-into-a-js-string-literal:' + ('directive' if form.startswith(('html', 'text', 'dir')) else 'attribute')
     if form.startswith('mod-'):
         return 'modifier-text-that-is-not-an-identifier-becomes-an-identifier-key'
     if form.startswith(('dir-', 'model-', 'models-', 'show-', 'slots-')):
